@@ -243,9 +243,11 @@ Print Assumptions replace_has_one_caller.
 (** ConfirmBatch stores the confirmation AS SUBMITTED; the model's [verify (checkpoint b) sg a] is about that whole field.
     In the source the field is checked as a whole: EthAddressFromSignature has a length guard and passes the very slice
     it was given to go-ethereum's SigToPub, which accepts 65 bytes only (no copy into a 65-byte buffer, no sub-slice), or
-    the guard itself demands exactly 65 bytes. *)
-Theorem confirmation_signature_checked_as_stored : Gen.C06.signature_checked_whole = true.
-Proof. exact eq_refl. Qed.
+    the guard itself demands exactly 65 bytes.  And the compass id in the checkpoint ConfirmBatch verifies against is the
+    evm chain info's (the compass the chain is bound to), not a secondary record. *)
+Theorem confirmation_signature_checked_as_stored :
+  Gen.C06.signature_checked_whole = true /\ Gen.C06.confirm_compass_id_from_chain_info = true.
+Proof. exact (conj eq_refl eq_refl). Qed.
 Print Assumptions confirmation_signature_checked_as_stored.
 
 (** valset.GetSigningKey (the model's [lookup_key]: chain and named address of one of the validator's accounts) has a
